@@ -117,6 +117,54 @@ def _filter_map_closure(lib, cdef, captured):
     return kept, tests
 
 
+def _filter_predicate(lib, cdef, fallible, value):
+    """A `filter` predicate over the results of a preceding `map`: under which test of the mapped value an item is dropped.
+    Decided by walking the predicate under (item is Ok / Err) x (each boolean test of its payload true / false): it must keep
+    every Err (so that the collect into Result still fails on it) and drop an Ok exactly when the test holds.
+    Returns [(test callee, [terms the test is applied to = the mapped value])] or None."""
+    from .decision import Undecided, Walker
+    cb = lib.fn(cdef)
+    if cb is None:
+        return None
+    co = Origins(cb, lib)
+    ITEM = ("param", 2)
+    from .analysis import is_transparent
+    tcalls = [t for _, t in cb.calls() if not is_transparent(t["callee"])]
+    tests = sorted({t["callee"] for t in tcalls})
+    if len(tests) != 1:
+        return None
+    test = tests[0]
+    # the test is applied to the item itself (infallible map) or to its Ok payload
+    for t in tcalls:
+        a = co.of_operand(t["args"][0])
+        if a != {ITEM}:
+            return None
+    table = {}
+    for variant in (("Ok", "Err") if fallible else ("Ok",)):
+        for tv in (0, 1):
+            def atom(t, variant=variant):
+                if t == ("discr", ITEM):
+                    return variant
+                return None
+
+            def call(t, argvals, tv=tv):
+                return tv if t[1] == test else None
+            w = Walker(cb, co, atom=atom, call=call)
+            try:
+                vals = {w.eval_terms(w.result_on_path(path)) for path, leaf in w.walk()}
+            except Undecided:
+                return None
+            if len(vals) != 1 or None in vals:
+                return None
+            table[(variant, tv)] = next(iter(vals))
+    want = {("Ok", 0): 1, ("Ok", 1): 0}
+    if fallible:
+        want.update({("Err", 0): 1, ("Err", 1): 1})
+    if table != want:
+        return None
+    return [(test, [frozenset(value)])]
+
+
 def _strip_result(terms):
     """(terms with Ok(..)/`?` wrappers removed, whether any was present)."""
     out = set()
@@ -170,6 +218,28 @@ def describe_vector(lib, body, o, terms):
                             kept, tests = r
                             val, fall = _strip_result(kept)
                             out.append(Built({base}, val, fall, False, "collect(filter_map)", t[3] if len(t) > 3 else None, dropped_when=tests))
+                elif it[0] == "adapt" and it[1] == "filter" and it[2][0] == "call" and it[2][1] == "std::iter::Iterator::map" and len(it[2][2]) == 2:
+                    # map(f) then filter(p): p sees f's result; items are dropped when p is false
+                    mp = it[2]
+                    for src in mp[2][0]:
+                        base = iter_base(src)
+                        if base is None:
+                            ok = False
+                            continue
+                        for f in mp[2][1]:
+                            val = _closure_value(lib, f[1], f[2]) if f[0] == "closure" else None
+                            preds = [p_ for p_ in it[3] if p_[0] == "closure"]
+                            if val is None or len(preds) != 1 or len(it[3]) != 1:
+                                ok = False
+                                continue
+                            val, fall = _strip_result(val)
+                            fb = lib.fn(f[1])
+                            fall = fall or (fb.local_ty(0) or "").startswith("std::result::Result")
+                            tests = _filter_predicate(lib, preds[0][1], fall, val)
+                            if tests is None:
+                                ok = False
+                                continue
+                            out.append(Built({base}, val, fall, False, "collect(filter(map))", t[3] if len(t) > 3 else None, dropped_when=tests))
                 elif it[0] in ITER_WRAPPERS:
                     base = iter_base(it)
                     if base is None:
